@@ -278,7 +278,8 @@ class Exec(object):
                 elif z3.is_app(a) and a.decl().kind() == z3.Z3_OP_SELECT and z3.is_const(a.arg(0)) \
                         and a.arg(0).decl().kind() == z3.Z3_OP_UNINTERPRETED:
                     bound = ARRAY_BOUND.get(a.arg(0).decl().name())
-            elif k == z3.Z3_OP_SEQ_NTH and x.sort() == Val:
+            elif (k == z3.Z3_OP_SEQ_NTH or x.decl().name() in ("seq.nth_i", "seq.nth_u")) and x.sort() == Val:
+                # (the simplifier rewrites seq.nth into If(in bounds, seq.nth_i, seq.nth_u))
                 a = x.arg(0)
                 if z3.is_const(a) and a.decl().kind() == z3.Z3_OP_UNINTERPRETED:
                     bound = ARRAY_BOUND.get(a.decl().name())
